@@ -27,7 +27,8 @@ RULE += (
     "keygetter) under asyncio while the deduplication table is empty, holds an uncomputed task built earlier "
     "for the same or another key, or saw the key computed earlier. In one program in three the hand-written "
     "asyncio_fn twins return an asyncio.Task; the deduplicate unit also makes the synchronous-call probe "
-    "(RuntimeError expected)."
+    "(RuntimeError expected). Unit refusals: 21 kinds of callable x called from a task / from its child under "
+    ".asyncio(): the synchronous call raises RuntimeError and nothing of the callable runs."
 )
 ASSUMPTIONS = ["the quantifier is restricted to what resolve_awaitables claims to support (no batch items, ErrorFuture, lazy Future, result(), scoped values); with-blocks of AsyncContext subclasses are included, compared by outcome"]
 UNIT_TIMEOUT = {"quick": 240, "thorough": 2400}
